@@ -98,6 +98,24 @@ class ScriptCard:
         return self.replies.pop(0) if self.replies else None
 
 
+class CycleCard:
+    """a card that answers from a list and then repeats a second list for ever (None = mute; empty second list:
+    mute for ever) - the endless S(WTX) / R(ACK) / chaining floods and whatever precedes them"""
+
+    def __init__(self, prefix, cycle):
+        self.prefix, self.cycle, self.k = list(prefix), list(cycle), 0
+        self.log, self.bn, self.wtx_sent = [], 0, 0
+
+    def rx(self, blk):
+        if self.prefix:
+            return self.prefix.pop(0)
+        if not self.cycle:
+            return None
+        r = self.cycle[self.k % len(self.cycle)]
+        self.k = (self.k + 1) % len(self.cycle)
+        return r
+
+
 class SimLimit(RuntimeError):
     """the code under test did not stop exchanging blocks"""
 
